@@ -171,15 +171,24 @@ package net
 
 // dispatch: messages are only offered to live (never closed) handlers of the table; a handler whose
 // filter returns keep == false is closed exactly once and leaves the table in the same critical section.
+// dvisited: slot of the last handler whose filter was consulted by the current dispatch. Every
+// handler that is live when the table is locked is consulted (no early exit from the slot loop).
+//@ ghostfield dvisited int counter
 //@ func (e *endPoint) dispatch(msg *Message) (err error)
 //@   tags C17 C10 C12
 //@   requires !e.handlersMutex.lockw && msg != nil && e.stream != nil
-//@   modifies everything
+//@   modifies everything, e.dvisited
 //@   ensures !e.handlersMutex.lockw
+//@   ensures[C10] forall k int {at_lock(e.handlers[k])} :: e.dvisited < k && k < at_lock(len(e.handlers)) ==> at_lock(e.handlers[k]) == nil
+//@   call Lock#1: ghost e.dvisited := -1
+//@   call dyn#1: assert[C10] e.dvisited < i
+//@   call dyn#1: ghost e.dvisited := i
 //@   ensures[C17] at_unlock(len(e.handlers)) == at_lock(len(e.handlers))
 //@   ensures[C17] forall i int {at_unlock(e.handlers[i])} :: 0 <= i && i < at_lock(len(e.handlers)) ==> at_unlock(e.handlers[i]) == at_lock(e.handlers[i]) || (at_unlock(e.handlers[i]) == nil && at_lock(e.handlers[i]) != nil && at_lock(e.handlers[i]).hclosed == 1 && at_lock(e.handlers[i]).consumer.chclosed)
 //@   loop 1:
 //@     invariant e.handlersMutex.lockw && e.handlers == at_lock(e.handlers) && e.stream != nil && msg != nil
+//@     invariant forall k int {e.handlers[k]} :: rangeindex < k && k < len(e.handlers) ==> e.handlers[k] == at_lock(e.handlers[k])
+//@     invariant -1 <= e.dvisited && e.dvisited <= rangeindex && forall k int {at_lock(e.handlers[k])} :: e.dvisited < k && k <= rangeindex && k < len(e.handlers) ==> at_lock(e.handlers[k]) == nil
 //@     invariant forall k int {e.handlers[k]} :: 0 <= k && k < len(e.handlers) && e.handlers[k] != nil ==> allocated(e.handlers[k]) && allocated(e.handlers[k].consumer) && e.handlers[k].hclosed == 0 && e.handlers[k].consumer != nil && !e.handlers[k].consumer.chclosed && e.handlers[k].consumer.chowned && e.handlers[k].hslot == k && e.handlers[k].consumer.chslot == k
 //@     invariant forall k int {e.handlers[k]} :: 0 <= k && k < len(e.handlers) ==> e.handlers[k] == at_lock(e.handlers[k]) || (e.handlers[k] == nil && at_lock(e.handlers[k]) != nil && at_lock(e.handlers[k]).hclosed == 1 && at_lock(e.handlers[k]).consumer.chclosed)
 
@@ -238,7 +247,7 @@ package net
 //@ func (e *endPoint) process()
 //@   tags C10 C11 C12
 //@   requires e.stream != nil && !e.handlersMutex.lockw && e.nread == e.ndisp
-//@   modifies everything, e.nread, e.ndisp, e.nclose
+//@   modifies everything, e.nread, e.ndisp, e.nclose, e.dvisited
 //@   ensures[C11] e.nclose == old(e.nclose) + 1
 //@   call Read#1: assume 0 <= e.stream.pos && e.stream.pos <= e.stream.len
 //@   call Read#1: assert[C10] e.nread == e.ndisp
